@@ -449,6 +449,20 @@ def model_fingerprint(M, names, states, vol=1.7):
     return fp
 
 
+def model_getters(M, exact):
+    """What a model reports about itself. exact: object-for-object copies (pickle / deepcopy) also keep every order and index."""
+    g = {"has_delays": bool(M.has_delays()), "number_of_species": int(M.get_number_of_species())}
+    if exact:
+        g["species_list"] = list(M.get_species_list())
+        g["param_list"] = list(M.get_param_list())
+        g["number_of_params"] = int(M.get_number_of_params())
+        g["species2index"] = dict(M.get_species2index())
+        g["params2index"] = dict(M.get_params2index())
+        g["rules"] = repr(M.get_rules())
+        g["reactions"] = [(type(x[0]).__name__, type(x[1]).__name__, dict(x[2]), dict(x[3])) for x in M.get_reactions()]
+    return g
+
+
 def traced_weights(M, names, st, safe=False, vol=None):
     """Stochastic (and stochastic-volume) propensity vector of the real simulator at a state: forced one-firing run."""
     import bioscrape.random as R_
@@ -773,6 +787,16 @@ class Machine:
         for key in ("imm", "del"):
             if fa[key] != fb[key]:
                 self.bad(cls, sig, what=f"{key} stoichiometry differs", a=fa[key], b=fb[key])
+                return False
+        # what the model says about itself through its public getters
+        try:
+            ga, gb = model_getters(A, sig.get("restart") in ("pickle", "deepcopy")), model_getters(B, sig.get("restart") in ("pickle", "deepcopy"))
+        except Exception as e:
+            self.bad(cls, sig, what="a public getter raised", error=f"{type(e).__name__}: {str(e)[:200]}")
+            return False
+        for key in ga:
+            if ga[key] != gb[key]:
+                self.bad(cls, sig, what=f"getter {key} differs", a=repr(ga[key])[:300], b=repr(gb[key])[:300])
                 return False
         ra, rb = np.array(fa["rates"]), np.array(fb["rates"])
         if ra.shape != rb.shape or not np.allclose(ra, rb, rtol=1e-12, atol=0, equal_nan=True):
